@@ -16,7 +16,10 @@ PROP = {
                'position of a single read/seek fault of the underlying buffer, and every (text, offset, literal or character set, entry '
                'point) combination for the error texts.',
  'level_note': 'history search: texts up to length 4 (quick) / 6 (thorough), 3 slots; straight-line pass: length 10 / 12 (plus a wchar_t '
-               'alphabet of characters whose low byte or low 16 bits equal the newline, length 7 / 9); faults: texts up to length 5 / 7, one '
+               'alphabet of characters whose low byte or low 16 bits equal the newline, length 7 / 9); char alphabet {a, newline, 0xFF, 0x80}: '
+               'history search length 4 / 6, straight-line 8 / 10, plus every one- and two-byte text and fcppt::io::get/peek on all 256 byte '
+               'values (pairs) and all wchar_t values below 0x20000; parse stream built after 1 or 2 istream::get() calls: history search '
+               'length 4 / 5, straight-line 8 / 10; faults: texts up to length 5 / 7, one '
                'fault per run; error texts: texts up to length 4 / 6; no random longer texts (nothing is sampled)',
  'binaries': [{'name': 'C12',
                'sources': ['harness/C12.cpp', 'harness/C12_straight.cpp', 'harness/C12_fault.cpp', 'harness/C12_errtext.cpp'],
@@ -28,12 +31,20 @@ PROP = {
          'non-trivial when it changes the canonical state (text, index, read-at-end flag, sorted saved indices, std stream state); states '
          'are distinct canonical keys. straight<..>: one case per text (read all while saving every position, read past the end, rewind '
          'to every saved position from the end-of-input state and re-read to the end, rewind ascending between healthy states, jumps); '
-         'non-trivial when the text contains a newline. fault_direct/fault_phrase: one case per (text, fault mode in {eof once, eof '
+         'non-trivial when the text contains a newline (the bytes / prefix / stream_bytes variants are the same schedule over the byte '
+         'alphabet, on a parse stream built after k = 1, 2 characters were read from the std stream, and over every one- and two-byte '
+         'text). io::get/peek: one case per stream content (1 or 2 characters), peek and get before every character and twice at the '
+         'end; non-trivial when a value is above 127. fault_direct/fault_phrase: one case per (text, fault mode in {eof once, eof '
          'forever, read throws, seek returns -1, seek throws}, k) for every k the script reaches, plus the fault-free run; non-trivial '
          'when a fault is injected. errtext: one case per (text, offset, literal c or non-empty subset S of the alphabet, entry point in '
          '{parser.parse, parse(), skipper::run, phrase_parse(char_, skipper)}); non-trivial when the character at the offset does not '
          'match, i.e. an "Expected ..., got ..." text is produced',
  'assumptions': ['the model is the documentation of fcppt::parse::basic_stream: index i, line = 1 + newlines among a_1..a_i, column = i - j + 1',
+                 'a parse stream built on a std stream from which characters were already read: the documentation does not say what the '
+                 'offset of its positions counts from, so the offset value is not examined there; enforced are rewind/re-read equality, '
+                 'equality of positions taken at the same index, line/column counted from where the parse stream started (1:1), and that '
+                 'the underlying buffer has consumed exactly (characters read in advance + model index) characters',
+                 'wchar_t(-1) equals WEOF and is excluded from the io::get/peek enumeration',
                  'set_position is only called with values returned by get_position on the same stream (documented precondition)',
                  'the three position slots are interchangeable, the canonical key sorts them (argument in harness/C12.cpp); 128-bit hashes of '
                  'canonical strings are used for deduplication',
